@@ -636,6 +636,16 @@ func Generate(prop, tier string, seed uint64) []GenCase {
 		out = genSmoke(seed)
 	case "prog":
 		out = genPrograms("S-prog", seed, 300*scale, 5, []string{"tokens", "ast", "code"})
+	case "C01":
+		out = genOps("S-ops", tier == "thorough", binaryOps)
+		out = append(out, genExprs("S-expr", seed, 1500*scale, 8)...)
+	case "C05":
+		out = genTruth("S-truth")
+		out = append(out, genOps("S-ops-logic", tier == "thorough", []string{"&&", "||"})...)
+	case "C16":
+		out = genContainers("S-cont", seed, 100*scale)
+	case "C17":
+		out = genBuiltinCalls("S-builtin", seed, 12*scale)
 	case "C10":
 		out = genBuiltinCalls("S-builtin", seed, 6*scale)
 		out = append(out, genPrograms("S-prog", seed+1, 100*scale, 5, nil)...)
